@@ -1,5 +1,5 @@
 ---------------------- MODULE AdaptiveLoopRefinesGeometry ----------------------
-\* Refinement: every behaviour of AdaptiveLoop (Mode = "save_at") is, under the mapping below, a behaviour of
+\* Refinement: every behaviour of AdaptiveLoop (Mode = "save_at" or "every_step") is, under the mapping below, a behaviour of
 \* LoopGeometry - whose inductive invariant is discharged for all layouts / eps / controllers / attempt counts
 \* by Apalache.  Checked by TLC as the temporal property RefinesGeometry on every save_at configuration of C06.
 EXTENDS AdaptiveLoop
@@ -12,6 +12,8 @@ SolKindOf(s) ==
   ELSE "sf"
 
 LG == INSTANCE LoopGeometry WITH
+  EveryStep <- (Mode = "every_step"),
+  nacc    <- nacc,
   pc      <- IF pc = "inexact" THEN "rloop" ELSE pc,
   t1      <- Ckpts[k],
   sft     <- ts.sf.t,
@@ -28,7 +30,7 @@ LG == INSTANCE LoopGeometry WITH
   solb    <- IF sol = Null THEN 0 ELSE sol.b,
   nemit   <- Len(out),
   lastt   <- IF out = <<>> THEN 0 ELSE out[Len(out)].t,
-  lastck  <- IF out = <<>> THEN 0 ELSE Ckpts[Len(out) + 1]
+  lastck  <- IF out = <<>> THEN 0 ELSE IF Mode = "every_step" THEN Ckpts[k] ELSE Ckpts[Len(out) + 1]
 
 RefinesGeometry == LG!Spec
 \* the invariant Apalache proved inductive, evaluated on the concrete states as well (cheap cross-check of the mapping)
